@@ -75,13 +75,19 @@ bool FileSequence::init(const std::string &path, PadStyle padStyle, Status* ok) 
         } else {
             // Try to see if we can at least find a specific frame
             // number, a la  .<frame>.ext
-            if ( internal::getSingleFrameMatch(match, path) ) {
+            // The frame number is looked for in the file name only: matched
+            // against the whole path, the extension group can swallow a
+            // directory separator ("d1.x/foo") and move the split into the
+            // directory part.
+            std::string fileDir, fileName;
+            fileseq::strings::path_split(fileDir, fileName, path);
+            if ( internal::getSingleFrameMatch(match, fileName) ) {
 
                 frameSet = FrameSet(match.range);
                 if (frameSet.isValid()) {
 
-                    // Reparse the dir/base to not include the trailing frame
-                    fileseq::strings::path_split(dir, base, match.base);
+                    // The basename does not include the trailing frame
+                    base = match.base;
 
                     // Calculate the padding chars
                     fileseq::strings::trim(match.range);
